@@ -309,8 +309,37 @@ def _nlri_laws(fam, o, neg, addpath: bool, action, x: bytes | None, canonical: b
         for name in r0:
             if r0[name] != r1[name]:
                 raise V(f'{render_owner(o1, name)}:changes-across-round-trip', f'{what} {b.hex()}: {r0[name][:250]} became {r1[name][:250]}')
-    parse_json(render_owner(o1, 'json'), r1['json'], f'{what} {b.hex()}')
+    doc = parse_json(render_owner(o1, 'json'), r1['json'], f'{what} {b.hex()}')
+    nlri_json_content(fam, o1, b, addpath, action, doc, what)
     return b
+
+
+def nlri_json_content(fam, o, b: bytes, addpath: bool, action, doc, what: str) -> None:
+    """a rendering which shows some other object's data is not a function of this object's bytes (stale / shared caches)"""
+    tag = render_owner(o, 'json')
+    if fam in gen.IP_FAMILIES and isinstance(doc, dict):
+        from vlib.refwire import codec
+
+        try:
+            ref = codec.decode_nlri(b, fam[0], fam[1], addpath, action == Action.WITHDRAW)
+        except codec.Malformed:
+            return
+        if len(ref) != 1:
+            return
+        import ipaddress
+
+        try:
+            shown = str(ipaddress.ip_network(doc.get('nlri'), strict=False))
+        except (ValueError, TypeError):
+            raise V(f'{tag}:content', f'{what} {b.hex()}: no usable "nlri" in {doc}') from None
+        if shown != ref[0]['prefix']:
+            raise V(f'{tag}:content', f'{what} {b.hex()}: the bytes say {ref[0]["prefix"]}, the JSON says {shown}')
+        if addpath and 'path-information' in doc:
+            if int(ipaddress.IPv4Address(doc['path-information'])) != ref[0]['path_id']:
+                raise V(f'{tag}:content', f'{what} {b.hex()}: path-id {ref[0]["path_id"]} shown as {doc["path-information"]}')
+    elif isinstance(doc, dict) and isinstance(doc.get('raw'), str):
+        if doc['raw'].lower() != b.hex():
+            raise V(f'{tag}:content', f'{what}: "raw" is {doc["raw"]} for the bytes {b.hex()}')
 
 
 def ip_layout(fam, raw: bytes, addpath: bool):
@@ -613,8 +642,42 @@ def attr_laws(code: int, flag: int, a, neg, x: bytes | None, canonical: bool, wh
         if r0[name] != r1[name] and not companion:
             raise V(f'{tag}:{name}:changes-across-round-trip', f'{what} {b.hex()}: {r0[name][:250]} became {r1[name][:250]}')
     if r1['json']:
-        parse_json(f'{tag}:json', r1['json'], f'{what} {b.hex()}')
+        doc = parse_json(f'{tag}:json', r1['json'], f'{what} {b.hex()}')
+        attr_json_content(code, a1, b, doc, what)
     return b
+
+
+def attr_json_content(code: int, a, b: bytes, doc, what: str) -> None:
+    """the JSON member is named after this attribute and, for the plain types, says what the bytes say"""
+    tag = f'attr:{code}:json'
+    if not isinstance(doc, dict) or len(doc) != 1:
+        raise V(f'{tag}:content', f'{what} {b.hex()}: expected one member, got {doc}')
+    key, value = next(iter(doc.items()))
+    rep = AttributeCollection.representation.get(code)
+    names = (rep[2],) if rep and isinstance(rep[2], str) else (tuple(rep[2]) if rep else (f'attribute-0x{code:02X}-0x{a.FLAG:02X}',))
+    if key not in names:
+        raise V(f'{tag}:content', f'{what} {b.hex()}: member {key!r}, expected one of {names}')
+    expect = None
+    if code in (4, 5) and len(b) == 4:
+        expect = struct.unpack('!L', b)[0]
+    elif code == 1 and len(b) == 1 and b[0] < 3:
+        expect = ['igp', 'egp', 'incomplete'][b[0]]
+    elif code == 9 and len(b) == 4:
+        expect = '.'.join(str(c) for c in b)
+    elif code == 10 and len(b) % 4 == 0:
+        expect = ['.'.join(str(c) for c in b[i : i + 4]) for i in range(0, len(b), 4)]
+    elif code == 32 and len(b) % 12 == 0 and isinstance(value, list):
+        expect = sorted(list(struct.unpack('!LLL', b[i : i + 12])) for i in range(0, len(b), 12))
+        value = sorted(value)
+        expect = [list(t) for t in {tuple(e) for e in expect}] if len(value) != len(expect) else expect
+        expect, value = sorted(expect), sorted(value)
+    elif code == 8 and len(b) % 4 == 0 and isinstance(value, list):
+        expect = sorted(list(struct.unpack('!HH', b[i : i + 4])) for i in range(0, len(b), 4))
+        if len(value) != len(expect):
+            expect = [list(t) for t in {tuple(e) for e in expect}]
+        expect, value = sorted(expect), sorted(value)
+    if expect is not None and value != expect:
+        raise V(f'{tag}:content', f'{what} {b.hex()}: the bytes say {expect}, the JSON says {value}')
 
 
 def check_attr(case: dict) -> dict:
@@ -854,7 +917,7 @@ def check_route(case: dict) -> dict:
             return {'nontrivial': False, 'classes': ['text:refused']}
         nontrivial, classes = route_laws(parsed[0], sess, f'"flow {text[:120]}..." ({len(case["ports"])} ports) session={sess}')
         size = len(bytes(parsed[0].nlri._packed)) if hasattr(parsed[0].nlri, '_packed') else 0
-        classes.append('flow:long' if len(case['ports']) * 2 > 240 else 'flow:short')
+        classes.append('flow:long' if size >= 240 else 'flow:short')
         return {'nontrivial': nontrivial, 'classes': sorted(set(classes + ['source:flowtext'])), 'sample': {'text': text[:200], 'session': sess, 'size': size}}
     rec = case['route']
     text = textgen.route_text(rec)
@@ -914,6 +977,186 @@ def check_message(case: dict) -> dict:
     return {'nontrivial': done > 0, 'classes': sorted(set(classes))}
 
 
+# ---------------------------------------------------------------------------- factories (make_* / create)
+
+
+def _factory_object(case: dict):
+    """(family, object, [(accessor, expected packed bytes)]) for one factory call"""
+    from exabgp.bgp.message.update.nlri.cidr import CIDR
+    from exabgp.bgp.message.update.nlri.evpn.ethernetad import EthernetAD
+    from exabgp.bgp.message.update.nlri.evpn.mac import MAC as EVPNMAC
+    from exabgp.bgp.message.update.nlri.evpn.multicast import Multicast
+    from exabgp.bgp.message.update.nlri.evpn.prefix import Prefix
+    from exabgp.bgp.message.update.nlri.evpn.segment import EthernetSegment
+    from exabgp.bgp.message.update.nlri.inet import INET
+    from exabgp.bgp.message.update.nlri.ipvpn import IPVPN
+    from exabgp.bgp.message.update.nlri.label import Label
+    from exabgp.bgp.message.update.nlri.mup.dsd import DirectSegmentDiscoveryRoute
+    from exabgp.bgp.message.update.nlri.mup.isd import InterworkSegmentDiscoveryRoute
+    from exabgp.bgp.message.update.nlri.mvpn.sharedjoin import SharedJoin
+    from exabgp.bgp.message.update.nlri.mvpn.sourcead import SourceAD
+    from exabgp.bgp.message.update.nlri.mvpn.sourcejoin import SourceJoin
+    from exabgp.bgp.message.update.nlri.qualifier import ESI, EthernetTag, Labels, PathInfo, RouteDistinguisher
+    from exabgp.bgp.message.update.nlri.qualifier import MAC as MACQUAL
+    from exabgp.bgp.message.update.nlri.sr_policy import SRPolicyNLRI
+    from exabgp.bgp.message.update.nlri.vpls import VPLS
+
+    what = case['what']
+    h = lambda k: bytes.fromhex(case[k])  # noqa: E731
+    rd = RouteDistinguisher(h('rd')) if 'rd' in case else None
+    esi = ESI.make_esi(h('esi')) if 'esi' in case else None
+    etag = EthernetTag.make_etag(case['etag']) if 'etag' in case else None
+    labels = Labels.make_labels(case['labels']) if case.get('labels') else None
+    ip = IP.create_ip(h('ip')) if case.get('ip') else None
+    exp = []
+    if rd is not None:
+        exp.append(('rd', lambda o: bytes(o.rd.pack_rd()), h('rd')))
+    if esi is not None:
+        exp.append(('esi', lambda o: bytes(o.esi.pack_esi()), h('esi')))
+    if etag is not None:
+        exp.append(('etag', lambda o: bytes(o.etag.pack_etag()), struct.pack('!L', case['etag'])))
+    if what == 'evpn-mac':
+        o = EVPNMAC.make_mac(rd, esi, etag, MACQUAL(packed=h('mac')), 48, labels, ip)
+        exp.append(('mac', lambda o: bytes(o.mac.pack_mac()), h('mac')))
+        exp.append(('ip', lambda o: bytes(o.ip.pack_ip()) if o.ip else b'', h('ip') if case.get('ip') else b''))
+        return (25, 70), o, exp
+    if what == 'evpn-ead':
+        return (25, 70), EthernetAD.make_ethernetad(rd, esi, etag, labels), exp
+    if what == 'evpn-multicast':
+        exp.append(('ip', lambda o: bytes(o.ip.pack_ip()), h('ip')))
+        return (25, 70), Multicast.make_multicast(rd, etag, ip), exp
+    if what == 'evpn-segment':
+        exp.append(('ip', lambda o: bytes(o.ip.pack_ip()), h('ip')))
+        return (25, 70), EthernetSegment.make_ethernetsegment(rd, esi, ip), exp
+    if what == 'evpn-prefix':
+        gw = IP.create_ip(h('gw'))
+        exp.append(('ip', lambda o: bytes(o.ip.pack_ip()), h('ip')))
+        exp.append(('gwip', lambda o: bytes(o.gwip.pack_ip()), h('gw')))
+        exp.append(('iplen', lambda o: bytes([o.iplen]), bytes([case['iplen']])))
+        return (25, 70), Prefix.make_prefix(rd, esi, etag, labels, ip, case['iplen'], gw), exp
+    if what == 'vpls':
+        o = VPLS.make_vpls(rd, case['endpoint'], case['base'], case['offset'], case['size'])
+        exp.append(('fields', lambda o: struct.pack('!HLHH', o.endpoint, o.base, o.offset, o.block_size), struct.pack('!HLHH', case['endpoint'], case['base'], case['offset'], case['size'])))
+        return (25, 65), o, exp
+    if what == 'sr-policy':
+        afi = 1 if len(h('ip')) == 4 else 2
+        o = SRPolicyNLRI.create(AFI.from_int(afi), case['distinguisher'], case['color'], str(ip))
+        exp.append(('fields', lambda o: struct.pack('!LL', o.distinguisher, o.color), struct.pack('!LL', case['distinguisher'], case['color'])))
+        return (afi, 73), o, exp
+    if what in ('mvpn-sourcead', 'mvpn-sourcejoin', 'mvpn-sharedjoin'):
+        afi = 1 if len(h('ip')) == 4 else 2
+        grp = IP.create_ip(h('group'))
+        exp.append(('source', lambda o: bytes(o.source.pack_ip()), h('ip')))
+        exp.append(('group', lambda o: bytes(o.group.pack_ip()), h('group')))
+        if what == 'mvpn-sourcead':
+            return (afi, 5), SourceAD.make_sourcead(rd, AFI.from_int(afi), ip, grp), exp
+        exp.append(('source_as', lambda o: struct.pack('!L', int(o.source_as)), struct.pack('!L', case['source_as'])))
+        maker = SourceJoin.make_sourcejoin if what == 'mvpn-sourcejoin' else SharedJoin.make_sharedjoin
+        return (afi, 5), maker(rd, AFI.from_int(afi), ip, grp, case['source_as']), exp
+    if what == 'mup-dsd':
+        afi = 1 if len(h('ip')) == 4 else 2
+        exp.append(('ip', lambda o: bytes(o.ip.pack_ip()), h('ip')))
+        return (afi, 85), DirectSegmentDiscoveryRoute.make_dsd(rd, ip, AFI.from_int(afi)), exp
+    if what == 'mup-isd':
+        afi = 1 if len(h('ip')) == 4 else 2
+        return (afi, 85), InterworkSegmentDiscoveryRoute.make_isd(rd, case['iplen'], ip, AFI.from_int(afi)), exp
+    if what in ('inet', 'label', 'ipvpn'):
+        afi = 1 if len(h('ip')) == 4 else 2
+        path = PathInfo(struct.pack('!L', case['path_id'])) if 'path_id' in case else PathInfo.DISABLED
+        cidr = CIDR.create_cidr(h('ip'), case['iplen'])
+        if what == 'inet':
+            safi = case.get('safi', 1)
+            return (afi, safi), INET.from_cidr(cidr, AFI.from_int(afi), SAFI.from_int(safi), path), exp
+        exp.append(('labels', lambda o: bytes(o.labels.pack_labels()), build.label_stack(case['labels'])))
+        if what == 'label':
+            return (afi, 4), Label.from_cidr(cidr, AFI.from_int(afi), SAFI.nlri_mpls, path, labels=labels), exp
+        return (afi, 128), IPVPN.make_vpn_route(AFI.from_int(afi), SAFI.mpls_vpn, h('ip'), case['iplen'], labels, rd, path), exp
+    raise RuntimeError(f'harness: unknown factory {what}')
+
+
+def check_factory(case: dict) -> dict:
+    exa.reset_global_state()
+    try:
+        fam, o, expectations = _factory_object(case)
+    except RuntimeError:
+        raise
+    except Exception as exc:  # noqa: BLE001
+        from vlib.runner import innermost_frame_is_repo
+
+        if innermost_frame_is_repo(exc):
+            raise V(exception_signature(f'factory:{case["what"]}', exc), f'{exc!r} for {case}') from exc
+        raise
+    sess = 'addpath' if case.get('addpath') else 'plain'
+    _conf, _neighbor, neg = session(sess)
+    addpath = sess == 'addpath' and fam in gen.ADDPATH_FAMILIES
+    has_path = bool(getattr(o, '_has_addpath', False))
+    what = f'factory {case["what"]} {json.dumps(case, sort_keys=True)[:300]}'
+    for name, read, want in expectations:
+        try:
+            got = read(o)
+        except Exception as exc:  # noqa: BLE001
+            raise V(exception_signature(f'factory:{case["what"]}:{name}', exc), f'{exc!r} reading {name} of {what}') from exc
+        if got != want:
+            raise V(f'factory:{case["what"]}:{name}-not-kept', f'{what}: gave {want.hex()}, the object says {got.hex()}')
+    b = nlri_laws(fam, o, neg, addpath, Action.ANNOUNCE, None, False, what, normalise_path=has_path != addpath)
+    o1, _left = unpack_one(fam, b, Action.ANNOUNCE, addpath, neg)
+    for name, read, want in expectations:
+        got = read(o1)
+        if got != want:
+            raise V(f'factory:{case["what"]}:{name}-lost-on-the-wire', f'{what}: gave {want.hex()}, packed as {b.hex()}, read back {got.hex()}')
+    tag = fam_tag(fam)
+    return {'nontrivial': True, 'classes': sorted({tag, f'{tag}:{type(o).__name__}', f'{tag}:factory', f'factory:{case["what"]}'} | ({f'{tag}:addpath'} if addpath else set()))}
+
+
+@st.composite
+def factory_cases(draw):
+    what = draw(st.sampled_from(['evpn-mac', 'evpn-mac', 'evpn-ead', 'evpn-multicast', 'evpn-segment', 'evpn-prefix', 'vpls', 'sr-policy', 'mvpn-sourcead', 'mvpn-sourcejoin', 'mvpn-sharedjoin', 'mup-dsd', 'mup-isd', 'inet', 'label', 'ipvpn']))
+    case: dict = {'kind': 'factory', 'what': what}
+    v6 = draw(st.booleans())
+    addr = gen.ip6 if v6 else gen.ip4
+    full = 128 if v6 else 32
+    if what not in ('inet', 'label', 'sr-policy'):
+        case['rd'] = draw(gen.rd()).hex()
+    if what in ('evpn-mac', 'evpn-ead', 'evpn-segment', 'evpn-prefix'):
+        case['esi'] = draw(gen.esi).hex()
+    if what in ('evpn-mac', 'evpn-ead', 'evpn-multicast', 'evpn-prefix'):
+        case['etag'] = draw(gen.u32)
+    if what in ('evpn-mac', 'evpn-ead', 'evpn-prefix'):
+        case['labels'] = [draw(st.one_of(st.sampled_from([16, 1048575]), st.integers(16, 2**20 - 1)))]
+    if what == 'evpn-mac':
+        case['mac'] = draw(gen.blob(6, 6)).hex()
+        case['ip'] = draw(st.one_of(st.just(b''), addr)).hex()
+    elif what == 'vpls':
+        case.update(endpoint=draw(gen.u16), offset=draw(gen.u16), size=draw(st.integers(0, 255)), base=draw(st.integers(0, 2**20 - 256)))
+    else:
+        case['ip'] = draw(addr).hex()
+    if what == 'evpn-prefix':
+        case['gw'] = draw(addr).hex()
+        case['iplen'] = draw(st.integers(0, full))
+    if what == 'sr-policy':
+        case.update(distinguisher=draw(gen.u32), color=draw(gen.u32))
+    if what.startswith('mvpn'):
+        case['group'] = draw(addr).hex()
+        if what != 'mvpn-sourcead':
+            case['source_as'] = draw(gen.u32)
+    if what == 'mup-isd':
+        case['iplen'] = draw(st.integers(0, full))
+    if what in ('inet', 'label', 'ipvpn'):
+        bits = draw(st.integers(0, full))
+        n = int.from_bytes(bytes.fromhex(case['ip']), 'big')
+        n &= ((1 << full) - 1) ^ ((1 << (full - bits)) - 1)
+        case['ip'] = n.to_bytes(full // 8, 'big').hex()
+        case['iplen'] = bits
+        if what == 'inet':
+            case['safi'] = draw(st.sampled_from([1, 1, 2]))
+        else:
+            case['labels'] = draw(st.lists(st.integers(16, 2**20 - 1), min_size=1, max_size=2))
+        if draw(st.booleans()):
+            case['path_id'] = draw(gen.u32)
+        case['addpath'] = draw(st.booleans())
+    return case
+
+
 def check(case: dict) -> dict:
     kind = case['kind']
     if kind == 'nlri':
@@ -924,6 +1167,8 @@ def check(case: dict) -> dict:
         return check_route(case)
     if kind == 'message':
         return check_message(case)
+    if kind == 'factory':
+        return check_factory(case)
     raise RuntimeError(f'harness: unknown case kind {kind}')
 
 
@@ -982,7 +1227,11 @@ def standard_variants(fam) -> list[dict]:
 
 
 def nlri_fixed_cases() -> list:
-    cases = []
+    # shapes the mutations keep finding: pinned so that every tier meets them whatever the seed
+    cases = [
+        {'kind': 'nlri', 'afi': 25, 'safi': 65, 'hex': '00120001c0a8c901007b000500010008029c4100', 'addpath': False, 'action': 'announce', 'source': 'pinned:vpls-longer-than-17', 'encoder': False},
+        {'kind': 'nlri', 'afi': 16388, 'safi': 72, 'hex': '0103002f0000fde8000000010100000000000000040100001a020000040000fc13020100040000008b02030006192168251231', 'addpath': False, 'action': 'announce', 'source': 'pinned:bgp-ls-vpn-unknown-type', 'encoder': False},
+    ]
     for fam in FAMILIES:
         for seed in corpus.NLRI_SEEDS.get(fam, []):
             cases.append({'kind': 'nlri', 'afi': fam[0], 'safi': fam[1], 'hex': seed['hex'], 'addpath': seed['addpath'], 'action': seed['action'], 'source': seed['source'], 'encoder': seed['encoder']})
@@ -995,7 +1244,10 @@ def nlri_fixed_cases() -> list:
 
 
 def attr_fixed_cases() -> list:
-    cases = []
+    cases = [
+        {'kind': 'attr', 'code': 40, 'flags': 0xC0, 'hex': '0500220001001e8020010db8000200020000000000000000000018000c0006401810000000', 'asn4': True, 'source': 'pinned:srv6-unknown-sub-sub-tlv', 'encoder': False},
+        {'kind': 'attr', 'code': 23, 'flags': 0xC0, 'hex': '000f00240c050000000000640d06100005dc01008000110009060000000000010106000003e81100', 'asn4': True, 'source': 'pinned:sr-policy-unknown-sub-tlv', 'encoder': False},
+    ]
     for code in sorted(corpus.ATTR_SEEDS):
         for seed in corpus.ATTR_SEEDS[code]:
             cases.append({'kind': 'attr', 'code': code, 'flags': seed['flags'], 'hex': seed['hex'], 'asn4': seed['asn4'], 'source': seed['source'], 'encoder': seed['encoder']})
@@ -1007,6 +1259,11 @@ def route_fixed_cases() -> list:
         {'kind': 'flow', 'dest': '10.0.0.0/24', 'ports': list(range(1000, 1070)), 'session': 'plain'},
         {'kind': 'flow', 'dest': '10.0.0.0/24', 'ports': list(range(1000, 1080)), 'session': 'plain'},  # 4 + 3 * 80 = 244 bytes: the two-byte length form
         {'kind': 'flow', 'dest': '10.0.0.0/24', 'ports': list(range(1000, 1130)), 'session': 'plain'},  # 394 bytes
+        {'kind': 'text', 'route': {'afi': 1, 'safi': 1, 'prefix': '10.0.0.0/24', 'form': 'route', 'nexthop': '10.9.8.7', 'attrs': {'as_path': [[2, [65000, 1]]]}}, 'session': 'asn2'},
+        {'kind': 'text', 'route': {'afi': 1, 'safi': 1, 'prefix': '10.0.0.0/24', 'form': 'route', 'nexthop': '10.9.8.7', 'attrs': {'aggregator': [65536, '1.2.3.4']}}, 'session': 'asn2'},
+        {'kind': 'text', 'route': {'afi': 1, 'safi': 1, 'prefix': '10.0.0.0/24', 'form': 'route', 'nexthop': '10.9.8.7', 'attrs': {'aggregator': [65536, '1.2.3.4'], 'originator': '1.2.3.4'}}, 'session': 'asn2'},
+        {'kind': 'text', 'route': {'afi': 1, 'safi': 4, 'prefix': '10.0.0.0/24', 'form': 'route', 'labels': [0, 100], 'nexthop': '10.9.8.7', 'attrs': {}}, 'session': 'plain'},
+        {'kind': 'text', 'route': {'afi': 1, 'safi': 128, 'prefix': '10.0.0.0/24', 'form': 'route', 'labels': [0, 100], 'rd': ['asn2', 65000, 1], 'nexthop': '10.9.8.7', 'attrs': {}}, 'session': 'plain'},
     ]
     for name in corpus.CONF_FILES:
         for i in range(len(conf_routes(name))):
@@ -1127,6 +1384,7 @@ ENGINES = [
     Engine('nlri', nlri_cases, check, quick=1500, thorough=40000, batch=500),
     Engine('attr', attr_cases, check, quick=900, thorough=25000, batch=450),
     Engine('text', text_cases, check, quick=250, thorough=6000, batch=125),
+    Engine('factory', factory_cases, check, quick=400, thorough=10000, batch=200),
 ]
 
 
